@@ -11,7 +11,7 @@ import random
 
 # ---- alphabets ---------------------------------------------------------------------------------
 XML_META = ["<", ">", "&", '"', "'", "]]>", "<!--", "-->", "&amp;", "&lt;", "&#60;", "<b>", "</b>", "<?x?>", "<![CDATA[",
-            "{", "}", "$", "${", "\\", "|", "=", "/", "%s", "%", ":", ";", ","]
+            "{", "}", "$", "${", "\\", "|", "=", "/", "%s", "%", ":", ";", ",", "\n", "a\n\nb", "\n \n", "x\ny"]
 WORDS = ["Name", "age", "How old", "ok", "Yes", "no", "1", "2.5", "x y", "é", "ñandú", "日本", "שלום", "مرحبا", "😀", "𝒜",
          "á", "Ω", "tab", "don't", "q?", "A-B", "a.b", "100%"]
 ASCII_NAME_START = "abcdefghijklmnopqrstuvwxyzABCDEFGHIJKLMNOPQRSTUVWXYZ_"
@@ -112,7 +112,7 @@ class Profile:
         self.__dict__.update(kw)
 
 
-LANG_POOL = ["English (en)", "French (fr)", "es", "Deutsch", "العربية (ar)", "en", "fr"]
+LANG_POOL = ["English (en)", "French (fr)", "es", "Deutsch", "العربية (ar)", "en", "fr", "eng", "fra", "Kiswahili (sw)"]
 
 
 class FormGen:
@@ -210,7 +210,7 @@ class FormGen:
             spelled = rng.choice(TYPE_ALIASES.get(base, [base]))
             row["type"] = f"{spelled} {lst}"
             qtype = base
-            if base in ("select_one", "select_multiple") and rng.random() < p.p_or_other and not self.langs:
+            if base in ("select_one", "select_multiple") and rng.random() < p.p_or_other and (not self.langs or getattr(p, 'or_other_with_langs', False)):
                 row["type"] += " or_other"
             if rng.random() < 0.15:
                 row["choice_filter"] = rng.choice(["true()", "name != 'a'", "cf = 'x'"])
@@ -442,7 +442,7 @@ def add_custom_columns(rng: random.Random, form: dict, hostile: bool = False) ->
             r[col] = adversarial_text(rng)
             info["custom"].append(col)
     if rng.random() < 0.4:
-        col = "attribute::" + rng.choice(["xyz", "a.b", "_c", "ex:k" if "namespaces" in settings else "k9"])
+        col = "attribute::" + rng.choice(["xyz", "a.b", "_c", "ex:k" if "namespaces" in settings else "k9", "id", "version"])
         settings[col] = adversarial_text(rng)
         info["custom"].append(col)
     if qrows and rng.random() < 0.5:
@@ -450,8 +450,26 @@ def add_custom_columns(rng: random.Random, form: dict, hostile: bool = False) ->
         col = rng.choice(["bind::custom", "bind::jr:foo", "instance::extra", "body::accuracyThreshold", "instance::odk:k", "body::jr:x-y"])
         r[col] = adversarial_text(rng)
         info["custom"].append(col)
+    if rng.random() < 0.35 and "entities" not in form and not any(r["type"].split()[0].startswith("begin") and "repeat" in r["type"] for r in survey):
+        form["entities"] = [{"dataset": rng.choice(["trees", "people_1"]), "label": "concat('x', 'y')"}]
+        cands = [r for r in qrows if r["type"].split()[0] in ("text", "integer", "string", "int")]
+        if cands and rng.random() < 0.6:
+            rng.choice(cands)["save_to"] = rng.choice(["prop_a", "height"])
+        info["custom"].append("entities")
     if hostile:
-        kind = rng.choice(["badname", "unbound", "control"])
+        kind = rng.choice(["badname", "unbound", "control", "weirdname"])
+        if kind == "weirdname" and qrows:
+            r = rng.choice(qrows)
+            old = r["name"]
+            new = rng.choice(["dose_µg", "temp_ºC", "aªb", "q×2", "a÷b", "x\u037ey", "q]", "À-Ö]", "a\u2190b", "n\ufffe", "Àbc", "q·1"])
+            r["name"] = new
+            for rows in form.values():
+                for row in rows:
+                    for k, v in row.items():
+                        if isinstance(v, str) and "${" + old + "}" in v:
+                            row[k] = v.replace("${" + old + "}", "${" + new + "}")
+            info["hostile"].append(("weirdname", new))
+            kind = None
         if kind == "badname" and qrows:
             r = rng.choice(qrows)
             col = rng.choice(["bind::a b", "instance::x y", "body::1abc", "bind::a<b", "instance::", "bind::a\"b"])
